@@ -12,10 +12,15 @@ package routing
 //@   params r
 //@   modifies allof(lunar_messages.OnResponse.Status), allof(lunar_messages.OnResponse.Body), mapof(r.Headers), now
 // the encoding of the chosen action (its contract is proved in package actions)
+// gSentReq / gSentResp: the action whose encoding was produced last (ghost; the result of a.ReqToSpoeActions() is the encoding of a)
+//@ ghost var gSentReq actions.ReqLunarAction
+//@ ghost var gSentResp actions.RespLunarAction
 //@ iface ReqLunarAction.ReqToSpoeActions
-//@   modifies now
+//@   modifies gSentReq, now
+//@   ensures gSentReq == self
 //@ iface RespLunarAction.RespToSpoeActions
-//@   modifies now
+//@   modifies gSentResp, now
+//@   ensures gSentResp == self
 
 //@ ghost func isER(a actions.ReqLunarAction) bool = typeis(a, *actions.EarlyResponseAction)
 //@ ghost func isNoOp(a actions.ReqLunarAction) bool = typeis(a, *actions.NoOpAction)
@@ -33,6 +38,7 @@ package routing
 //@   ensures[first-early-response-wins] (exists(j, 0, len(lunarActions), isER(lunarActions[j]))) ==> exists(j, 0, len(lunarActions), prioritizedAction == lunarActions[j] && isER(lunarActions[j]) && forall(m, 0, j, !isER(lunarActions[m])))
 //@   ensures[no-early-response-invented] isER(prioritizedAction) ==> exists(j, 0, len(lunarActions), prioritizedAction == lunarActions[j])
 //@   ensures[noop-only-if-all-noop] isNoOp(prioritizedAction) <==> forall(j, 0, len(lunarActions), isNoOp(lunarActions[j]))
+//@   ensures[the-combined-action-is-what-is-sent] gSentReq == prioritizedAction
 
 //@ ghost func isModResp(a actions.RespLunarAction) bool = typeis(a, *actions.ModifyResponseAction)
 //@ ghost func isRetry(a actions.RespLunarAction) bool = typeis(a, *actions.RetryRequestAction)
@@ -47,6 +53,7 @@ package routing
 //@   loop 1 invariant[ok]       respOK(prioritizedAction)
 //@   loop 1 invariant[noop-iff] isRespNoOp(prioritizedAction) <==> forall(j, 0, idx1, isRespNoOp(lunarActions[j]))
 //@   ensures[noop-never-displaces] isRespNoOp(prioritizedAction) <==> forall(j, 0, len(lunarActions), isRespNoOp(lunarActions[j]))
+//@   ensures[the-combined-action-is-what-is-sent] gSentResp == prioritizedAction
 
 // ---------------------------------------------------------------- C08: failure paths of a configuration update
 // ghost: gfailed - a failure response was sent; gok - the success response was sent (trusted: the two writers below)
